@@ -30,10 +30,14 @@ type C20Task struct {
 }
 
 type C20Plan struct {
-	Mode  string    `json:"mode"` // "sched" (deterministic baton passing at the seams) | "sched-fine" (the same with a yield before every statement of the library, in an AST-rewritten scratch copy) | "race" (free-running under the race detector)
-	Tasks []C20Task `json:"tasks"`
-	Sched []int     `json:"sched,omitempty"` // scheduler choices: index into the runnable set at each yield
-	Ring  bool      `json:"ring,omitempty"`  // the decrypting tasks pass ONE shared identity slice (keyring...) holding all their identities
+	Mode    string    `json:"mode"` // "sched" (deterministic baton passing at the seams) | "sched-fine" (the same with a yield before every statement of the library, in an AST-rewritten scratch copy) | "race" (free-running under the race detector)
+	Tasks   []C20Task `json:"tasks"`
+	Sched   []int     `json:"sched,omitempty"`   // policy "random": index into the runnable set at each yield (after the list is used up, the lowest runnable task runs)
+	Policy  string    `json:"policy,omitempty"`  // "" = random | "pct": tasks run in priority order and are pre-empted only at the listed change points
+	Prio    []int     `json:"prio,omitempty"`    // pct: task ids, highest priority first
+	Changes []int     `json:"changes,omitempty"` // pct: the k-th hot yield (seam call, or statement inside a method of a key object) demotes the running task to the lowest priority
+	Layout  bool      `json:"layout,omitempty"`  // every file is also addressed to ONE common X25519 key, whose stanza sits at a drawn position among 0..5 others: one shared identity sees headers of different lengths and its stanza at different places
+	Ring    bool      `json:"ring,omitempty"`    // the decrypting tasks pass ONE shared identity slice (keyring...) holding all their identities
 	// race mode
 	Procs int    `json:"procs,omitempty"`
 	Iters int    `json:"iters,omitempty"`
@@ -43,7 +47,7 @@ type C20Plan struct {
 type C20 struct{}
 
 // stmtHookSetter is non-nil only in the binary built with -tags astyield (see c20_ast_on.go).
-var stmtHookSetter func(func())
+var stmtHookSetter func(func(hot bool))
 
 func (C20) ID() string { return "C20" }
 func (C20) Title() string {
@@ -65,7 +69,7 @@ func (C20) Meta() core.Meta {
 		Real:        []string{"filippo.io/age Encrypt/Decrypt", "X25519/scrypt/ssh-ed25519/ssh-rsa recipients and identities shared between tasks", "internal/stream"},
 		Stub:        []string{"task scheduler (baton passing)", "per-task tape behind one routed crypto/rand.Reader", "per-task destination and source"},
 		FaultKinds:  []string{},
-		Probes:      []string{"probe.task_switches", "probe.switch_inside_wrap", "probe.shared_x25519", "probe.shared_scrypt", "probe.shared_ssh_ed25519", "probe.shared_ssh_rsa", "probe.race_runs", "probe.race_goroutines", "probe.race_detector_missing", "probe.statement_level_schedules", "probe.statement_yields", "probe.shared_identity_slice"},
+		Probes:      []string{"probe.task_switches", "probe.switch_inside_wrap", "probe.shared_x25519", "probe.shared_scrypt", "probe.shared_ssh_ed25519", "probe.shared_ssh_rsa", "probe.race_runs", "probe.race_goroutines", "probe.race_detector_missing", "probe.statement_level_schedules", "probe.statement_yields", "probe.shared_identity_slice", "probe.common_key_at_varied_positions", "probe.pct_schedules"},
 	}
 }
 
@@ -88,6 +92,13 @@ func (C20) Generate(r *core.RNG, tier string, idx uint64) interface{} {
 			p.Tasks = append(p.Tasks, t)
 		}
 		p.Ring = r.Chance(1, 3)
+		if r.Chance(1, 4) {
+			p.Layout = true
+			for i := range p.Tasks {
+				p.Tasks[i].File.Recips, p.Tasks[i].IdKey = layoutRecips(r)
+				p.Tasks[i].File.PLen = r.Pick(0, 1, 100)
+			}
+		}
 		return p
 	}
 	p.Mode = "sched"
@@ -112,6 +123,33 @@ func (C20) Generate(r *core.RNG, tier string, idx uint64) interface{} {
 		p.Tasks = append(p.Tasks, t)
 	}
 	p.Ring = r.Chance(1, 3)
+	if r.Bool() {
+		// priority scheduling with a few change points (PCT): long uninterrupted runs, pre-emption only at drawn
+		// places, which are seam calls or statements inside methods of key objects
+		p.Policy = "pct"
+		p.Prio = r.Perm(n)
+		h := 10 * n
+		if p.Mode == "sched-fine" {
+			h = 40 * n
+		}
+		for d := r.Range(1, 4); d > 0; d-- {
+			p.Changes = append(p.Changes, 1+r.Intn(h))
+		}
+	}
+	if r.Chance(1, 4) {
+		p.Layout = true
+		for i := range p.Tasks {
+			p.Tasks[i].File.Recips, p.Tasks[i].IdKey = layoutRecips(r)
+			if r.Chance(3, 4) {
+				p.Tasks[i].Op = "dec"
+				p.Tasks[i].After = ""
+			}
+			if p.Tasks[i].File.PLen > 100 {
+				p.Tasks[i].File.PLen = r.Pick(0, 1, 100)
+				p.Tasks[i].Segs = nil
+			}
+		}
+	}
 	m := r.Range(5, 120)
 	if p.Mode == "sched-fine" {
 		m = r.Range(50, 1500)
@@ -129,6 +167,28 @@ func (C20) Generate(r *core.RNG, tier string, idx uint64) interface{} {
 }
 
 // few distinct keys so that tasks really share objects
+// layoutRecips: 0..5 stanzas for other keys and the common key x0 at a drawn position (returned too).
+func layoutRecips(r *core.RNG) ([]lib.Recip, int) {
+	n := r.Pick(0, 1, 1, 2, 3, 5)
+	var out []lib.Recip
+	for i := 0; i < n; i++ {
+		switch r.Intn(4) {
+		case 0, 1:
+			out = append(out, lib.Recip{Key: &world.Key{T: "x", K: 1 + r.Intn(3)}})
+		case 2:
+			out = append(out, lib.Recip{Key: &world.Key{T: "e", K: r.Intn(2)}})
+		default:
+			out = append(out, lib.Recip{Key: &world.Key{T: "x", K: 4}})
+		}
+	}
+	pos := r.Intn(n + 1)
+	if r.Bool() {
+		pos = n
+	}
+	out = append(out[:pos:pos], append([]lib.Recip{{Key: &world.Key{T: "x", K: 0}}}, out[pos:]...)...)
+	return out, pos
+}
+
 func c20Recips(r *core.RNG) []lib.Recip {
 	if r.Chance(1, 8) {
 		return []lib.Recip{{Key: &world.Key{T: "s", K: 0, WF: 2}}}
@@ -167,6 +227,11 @@ func (C20) Shrinks(plan interface{}) []interface{} {
 	if p.Ring {
 		q := cp()
 		q.Ring = false
+		out = append(out, q)
+	}
+	for i := range p.Changes {
+		q := cp()
+		q.Changes = append(append([]int(nil), p.Changes[:i]...), p.Changes[i+1:]...)
 		out = append(out, q)
 	}
 	if len(p.Sched) > 1 {
@@ -211,11 +276,41 @@ type scheduler struct {
 	ci      int
 	trace   []int
 	log     *core.Log
+	// pct policy
+	pct     bool
+	prio    []int
+	changes map[int]bool
+	hot     int
+}
+
+// stmt is the statement-level hook: under the pct policy only hot statements can be change points and
+// nothing else hands the baton over (long uninterrupted runs, few pre-emptions at chosen places).
+func (s *scheduler) stmt(hot bool) {
+	if !s.pct {
+		s.yield("stmt")
+		return
+	}
+	if hot {
+		s.yield("stmt")
+	}
 }
 
 func (s *scheduler) yield(what string) {
 	t := s.cur
 	t.where = what
+	if s.pct {
+		s.hot++
+		if !s.changes[s.hot] {
+			return // not a change point: the task keeps the baton
+		}
+		// demote the running task below all others
+		for i, id := range s.prio {
+			if id == t.id {
+				s.prio = append(append(s.prio[:i:i], s.prio[i+1:]...), id)
+				break
+			}
+		}
+	}
 	s.yielded <- t
 	<-t.run
 }
@@ -247,6 +342,14 @@ func (s *scheduler) loop() {
 			s.ci++
 		}
 		t := runnable[c%len(runnable)]
+		if s.pct {
+			for _, id := range s.prio {
+				if !s.tasks[id].done {
+					t = s.tasks[id]
+					break
+				}
+			}
+		}
 		s.trace = append(s.trace, t.id)
 		s.cur = t
 		t.run <- struct{}{}
@@ -340,6 +443,9 @@ func (e C20) Execute(plan interface{}, c *core.Ctx) *core.Verdict {
 			so.identity(k)
 		}
 	}
+	if p.Layout {
+		c.Stats.Inc("probe.common_key_at_varied_positions")
+	}
 	// the shared keyring: every decrypting task's identity (one slot per distinct key) plus an outsider
 	var ring, ringBefore []age.Identity
 	if p.Ring {
@@ -366,6 +472,25 @@ func (e C20) Execute(plan interface{}, c *core.Ctx) *core.Verdict {
 		return []age.Identity{so.identity(k)}
 	}
 	s := &scheduler{yielded: make(chan *schedTask), choices: p.Sched, log: c.Log}
+	if p.Policy == "pct" {
+		s.pct, s.changes = true, map[int]bool{}
+		for _, k := range p.Changes {
+			s.changes[k] = true
+		}
+		seen := map[int]bool{}
+		for _, id := range p.Prio {
+			if id >= 0 && id < len(p.Tasks) && !seen[id] {
+				seen[id] = true
+				s.prio = append(s.prio, id)
+			}
+		}
+		for id := range p.Tasks {
+			if !seen[id] {
+				s.prio = append(s.prio, id)
+			}
+		}
+		c.Stats.Inc("probe.pct_schedules")
+	}
 	together := make([]outcome, len(p.Tasks))
 	old := rand.Reader
 	rand.Reader = router{s}
@@ -444,7 +569,7 @@ func (e C20) Execute(plan interface{}, c *core.Ctx) *core.Verdict {
 		}()
 	}
 	if fine {
-		stmtHookSetter(func() { s.yield("stmt") })
+		stmtHookSetter(s.stmt)
 	}
 	s.loop()
 	if fine {
@@ -476,6 +601,9 @@ func (e C20) Execute(plan interface{}, c *core.Ctx) *core.Verdict {
 		_ = st
 	}
 	c.Log.Add("schedule trace: %v", s.trace)
+	if s.pct {
+		c.Stats.SetMax("max_hot_yields_in_a_pct_run", int64(s.hot))
+	}
 	c.Stats.Eval(fmt.Sprintf("%s|%v", p.Mode, s.trace), switches > 0 && shared > 0)
 	// aftermath: the shared objects, used once more one after the other, must still behave like fresh ones
 	// (state left behind by overlapping calls, e.g. a torn cache entry, shows here)
@@ -634,6 +762,9 @@ func (e C20) execRaceOnce(p *C20Plan, c *core.Ctx) *core.Verdict {
 				}
 				ks := t.File.Keys()
 				k := ks[g.Intn(len(ks))]
+				if p.Layout {
+					k = ks[t.IdKey%len(ks)] // the common key
+				}
 				if g.Chance(1, 2) {
 					runtime.Gosched()
 				}
